@@ -11,7 +11,7 @@ RULE = ('pull: FAIL right after RECV / after 1 or 2 DATA records / in place of D
         'with EVERY position of the FAIL WRTE among the device\'s OKAYs (emitted after 0..n further host WRTEs); reasons {empty, x, Permission denied, 300 bytes, non-UTF-8, three containing per-cent signs}; the '
         'FAIL record cut into WRTEs at every set of <=2 positions (<=1 for the 300-byte reason); sync records that are not valid at that point (every known id, first reply and after '
         'a DATA record, for pull, list, stat and the push status); both twins; oracle: pull -> AdbCommandFailureException containing the reason, push -> PushFailedError carrying it, '
-        'invalid record -> InvalidResponseError, never a normal return, never a timeout class, less virtual time spent than the read timeout; non-trivial = every case; distinct = distinct parameter tuple x cut set')
+        'a slow device whose FAIL record arrives in 3 WRTEs, each within the read timeout but together beyond it; invalid record -> InvalidResponseError, never a normal return, never a timeout class, less virtual time spent than the read timeout; non-trivial = every case; distinct = distinct parameter tuple x cut set')
 ASSUMPTIONS = ['adbsim sync service: after a FAIL to SEND the device keeps consuming and acknowledging DATA until DONE, then closes (handle_send_file)',
                'ids outside the sync id table are unspecified (KeyError today) and not asserted']
 TIMEOUTS = ('AdbTimeoutError', 'TcpTimeoutException')
@@ -51,14 +51,17 @@ def run_pull_fail(params, ch):
     cuts = oracle.choose_cuts(ch, blob_len, params['kmax'])
     cfg = {'fs': {'files': {b'/f': {'data': data}}}, 'records': [10, 10, 10], 'cut': {'at': cuts},
            'fail': {'op': 'recv', 'when': tuple(when) if isinstance(when, list) else when, 'reason': reason}}
+    slow = params.get('slow')
+    if slow:
+        cfg['wrte_delay'] = slow[0]
     s = Session(ch, cfg, twin=params['twin'])
     try:
         s.op(('connect',))
         t0 = s.env.clock.now
-        r = s.op(('pull', '/f', 'bytesio'))
+        r = s.op(('pull', '/f', 'bytesio', {'read_timeout_s': slow[1]})) if slow else s.op(('pull', '/f', 'bytesio'))
         viol = oracle.base_viol(s, completed=False)
-        judge_exc(s, r, 'AdbCommandFailureException', reason, viol, 'pull (FAIL %s, cuts %r)' % (when, cuts))
-        if s.env.clock.now - t0 >= 10.0:
+        judge_exc(s, r, 'AdbCommandFailureException', reason, viol, 'pull (FAIL %s, cuts %r%s)' % (when, cuts, ', every device WRTE %.1f s late, read timeout %.1f s' % tuple(slow) if slow else ''))
+        if s.env.clock.now - t0 >= 10.0 and not slow:
             viol.append({'msg': 'pull spent %.3f s of virtual time before reporting the failure' % (s.env.clock.now - t0)})
         return {'outcome': r[:2], 'viol': viol, 'nontrivial': ('pull', str(when), params['reason'], tuple(cuts), params['twin']),
                 'sample': {'op': 'pull', 'fail_when': when, 'reason': reason[:20], 'cuts': cuts, 'twin': params['twin'], 'result': r[:2]}, 'trans': len(s.env.events)}
@@ -73,11 +76,14 @@ def run_push_fail(params, ch):
     cuts = oracle.choose_cuts(ch, 8 + len(reason), params['kmax'])
     cfg = {'maxdata': 4096, 'fail_cut': {'at': cuts},
            'fail': {'op': 'send', 'when': tuple(when) if isinstance(when, list) else when, 'reason': reason, 'delay': params['delay']}}
+    slow = params.get('slow')
+    if slow:
+        cfg['wrte_delay'] = slow[0]
     s = Session(ch, cfg, twin=params['twin'])
     try:
         s.op(('connect',))
         t0 = s.env.clock.now
-        r = s.op(('push', ('bytes', rng('c10p').randbytes(size)), '/g', {'mtime': 5}))
+        r = s.op(('push', ('bytes', rng('c10p').randbytes(size)), '/g', dict({'mtime': 5}, **({'read_timeout_s': slow[1]} if slow else {}))))
         viol = oracle.base_viol(s, completed=False)
         before = len(viol)
         nw = sum(1 for w, p in s.env.events if w == 'H' and p.cmd == b'WRTE')
@@ -88,7 +94,7 @@ def run_push_fail(params, ch):
         for v in viol[before:]:
             if v.get('timeout') and pos is not None and pos < dev.count(b'OKAY') and nw >= 2:
                 v['sig'] = 'F5'
-        if s.env.clock.now - t0 >= 10.0 and r[0] == 'exc' and r[1] not in TIMEOUTS:
+        if s.env.clock.now - t0 >= 10.0 and r[0] == 'exc' and r[1] not in TIMEOUTS and not slow:
             viol.append({'msg': 'push spent %.3f s of virtual time before reporting the failure' % (s.env.clock.now - t0)})
         return {'outcome': (r[:2], nw, pos), 'viol': viol, 'nontrivial': ('push', size, str(when), params['delay'], params['reason'], tuple(cuts), params['twin']),
                 'sample': {'op': 'push', 'size': size, 'fail_when': when, 'delay': params['delay'], 'reason': reason[:20], 'cuts': cuts, 'twin': params['twin'],
@@ -131,8 +137,9 @@ def run_invalid(params, ch):
 
 def parts(tier):
     twins = ('sync', 'async')
-    sc = [{'when': w, 'reason': ri, 'twin': t, 'kmax': (1 if ri == 3 else 2)} for w in ('start', ['data', 1], ['data', 2], 'done') for ri in range(len(REASONS)) for t in twins]
-    out = [Part('pull-fail', sc, run_pull_fail, {'*': None}, what='pull: FAIL at every point x reasons x cut sets', bound='<=2 cuts', min_outcomes=1)]
+    kp = 3 if tier == 'thorough' else 2
+    sc = [{'when': w, 'reason': ri, 'twin': t, 'kmax': (1 if ri == 3 else (kp if ri in (0, 1) or w == 'start' else 2))} for w in ('start', ['data', 1], ['data', 2], 'done') for ri in range(len(REASONS)) for t in twins]
+    out = [Part('pull-fail', sc, run_pull_fail, {'*': None}, what='pull: FAIL at every point x reasons x cut sets', bound='<=%d cuts' % kp, min_outcomes=1)]
     sc = []
     # sizes at maxdata 4096 (chunk 2048): number of host WRTEs grows with the size (reported per sample)
     for size, nw in ((100, 1), (5000, 2), (9000, 3), (17000, 5)):
@@ -147,6 +154,14 @@ def parts(tier):
                         sc.append({'size': size, 'when': w, 'delay': delay, 'reason': ri, 'twin': t, 'kmax': (0 if tier == 'quick' else 1) if (ri == 3 or delay > 1) else (1 if tier == 'quick' else 2)})
     out.append(Part('push-fail', sc, run_push_fail, {'*': None}, what='push: FAIL at every point x every position among the OKAYs x reasons x cut sets',
                     bound='files of 100..17000 bytes (1..5+ host WRTEs); <=%d cuts' % (1 if tier == 'quick' else 2)))
+    # a slow but legal device: each WRTE arrives within the read timeout, the whole FAIL record (3 WRTEs) takes longer than it
+    SLOW = (0.4, 1.0)
+    sc = [{'when': w, 'reason': ri, 'twin': t, 'kmax': 2, 'slow': SLOW} for w in ('start', ['data', 1], 'done') for ri in (1, 2, 4) for t in twins]
+    out.append(Part('pull-fail-slow-device', sc, run_pull_fail, {'*': None}, what='pull: the FAIL record arrives in up to 3 WRTEs, each 0.4 s after the previous acknowledgement, read timeout 1 s',
+                    bound='<=2 cuts', min_outcomes=1))
+    sc = [{'size': size, 'when': w, 'delay': d, 'reason': ri, 'twin': t, 'kmax': 2, 'slow': SLOW} for size in (100, 5000) for w in ('header', ['data', 1], 'done')
+          for d in (0, 1) for ri in (1, 2) for t in twins]
+    out.append(Part('push-fail-slow-device', sc, run_push_fail, {'*': None}, what='push: the same slow device rejecting a push', bound='<=2 cuts', min_outcomes=1))
     sc = [{'op': op, 'id': sid, 'after': a, 'twin': t} for op in ('pull', 'list', 'stat', 'push') for sid in IDS if sid not in VALID[op]
           for a in ((False, True) if op in ('pull', 'list') else (False,)) for t in twins]
     out.append(Part('invalid-records', sc, run_invalid, {'*': None}, what='every known sync id that is not valid at that point, first reply and after a valid record',
